@@ -198,6 +198,14 @@ func (c *Ctx) subjectFieldsRec(fn *types.Func, subj int, visiting map[subjKey]bo
 						pt := csig.Params().At(pi).Type()
 						if _, isIface := pt.Underlying().(*types.Interface); isIface {
 							follow(stringFn(), -1, a.Pos())
+							// methods the callee invokes on the interface-typed parameter run on the subject
+							if n := namedOf(subjVar.Type()); n != nil {
+								for _, mname := range c.methodsCalledOnParam(callee, pi) {
+									if m := methodOf(n, mname); m != nil {
+										follow(m, -1, a.Pos())
+									}
+								}
+							}
 						} else if structOf(pt) != nil {
 							follow(callee, pi, a.Pos())
 						}
@@ -230,4 +238,41 @@ func declaredMethodOf(n *types.Named, name string) *types.Func {
 		}
 	}
 	return nil
+}
+
+// methodsCalledOnParam: names of the methods a function calls directly on its
+// i-th parameter (an interface-typed parameter through which a subject is passed).
+func (c *Ctx) methodsCalledOnParam(fn *types.Func, i int) []string {
+	fd := c.funcDecl(fn)
+	if fd == nil || fd.Body == nil {
+		return nil
+	}
+	info := c.declPkg[fd].TypesInfo
+	var pv types.Object
+	k := 0
+	for _, f := range fd.Type.Params.List {
+		for _, n := range f.Names {
+			if k == i {
+				pv = info.Defs[n]
+			}
+			k++
+		}
+	}
+	if pv == nil {
+		return nil
+	}
+	seen := map[string]bool{}
+	var out []string
+	ast.Inspect(fd.Body, func(n ast.Node) bool {
+		if se, ok := n.(*ast.SelectorExpr); ok {
+			if id, ok := unparen(se.X).(*ast.Ident); ok && info.ObjectOf(id) == pv {
+				if sel, ok := info.Selections[se]; ok && sel.Kind() == types.MethodVal && !seen[se.Sel.Name] {
+					seen[se.Sel.Name] = true
+					out = append(out, se.Sel.Name)
+				}
+			}
+		}
+		return true
+	})
+	return out
 }
